@@ -317,10 +317,121 @@ def check_write_fault(case, ctx):
     ctx.cls("faults-enumerated")
 
 
+def check_transient_fault(case, ctx):
+    """One write call on the file object raises without storing anything (ENOSPC-style) and the device recovers; the
+    caller catches the error of that write() and keeps writing.  Judged only when the fault left the file at a frame
+    boundary (otherwise the caller continued after a torn frame, which nothing promises to survive): what is read
+    back is then an in-order prefix of the records whose write() RETURNED - a record whose write() raised was not
+    written and must not be yielded - and all of them when the reader ends without an error."""
+    from flow.record import RecordStreamReader, RecordStreamWriter
+    from flow.record.adapter.stream import StreamWriter
+
+    records, obs_full = _build(case, ctx)
+    if records is None or not records:
+        return
+    for wrap in ("stream", "adapter"):
+        dry = FaultyFile()
+        if _write_all(records, case["flush"], dry, wrap) is not None:
+            return
+        ncalls = len(dry.calls)
+        if sum(dry.calls) > 20000:
+            ctx.cls("transient:skipped-large-stream")
+            continue
+        for k in range(ncalls):
+            ff = FaultyFile(fail_at=k, keep=0, transient=True)
+            writer = RecordStreamWriter(ff) if wrap == "stream" else StreamWriter(ff)
+            ok = []
+            for r, fl in zip(records, case["flush"]):
+                res = impl(writer.write, r)
+                ok.append(res.ok)
+                if not res.ok and not isinstance(res.exc, OSError):
+                    raise Violation("transient/%s/write-raised-other" % wrap, "write raised %r" % (res,))
+                if fl:
+                    impl(writer.flush)
+            impl(writer.flush)
+            try:
+                writer.close()
+            except Exception:
+                pass
+            ctx.count(1)
+            if all(ok):
+                ctx.cls("transient:fault-outside-record-writes")  # header write / flush
+                continue
+            disk = ff.getvalue()
+            frames, _ = _frames(disk)
+            if ff.fault_offset not in ({0} | {e for _, e, _ in frames}):
+                ctx.cls("transient:torn-frame(not judged)")
+                continue
+            ctx.cls("transient:fault-at-frame-boundary")
+            ctx.nontriv((wrap, k))
+            got, rexc = _read_prefix(lambda: RecordStreamReader(io.BytesIO(disk)))
+            want = [o for o, good in zip(obs_full, ok) if good]
+            gobs = [observe(r) for r in got]
+            if gobs != want[: len(gobs)]:
+                i = next((i for i, (a, b) in enumerate(zip(gobs, want)) if a != b), min(len(gobs), len(want)))
+                refused = [o for o, good in zip(obs_full, ok) if not good]
+                kind = "yielded-refused-record" if i < len(gobs) and gobs[i] in refused else "yielded-other"
+                raise Violation("transient/%s/%s" % (wrap, kind), "write call %d raised (nothing stored) during record %d; "
+                                "reader yielded %d records, position %d is not the next record whose write() returned"
+                                % (k, ok.index(False), len(gobs), i))
+            if rexc is None and len(gobs) != len(want):
+                raise Violation("transient/%s/skipped-complete" % wrap, "reader ended cleanly after %d of %d records whose "
+                                "write() returned" % (len(gobs), len(want)))
+
+
+LARGE = [2**20, 2**24 - 64, 2**24, 2**24 + 1, 2**25 + 5]
+
+
+def large_cases(tier):
+    return [{"size": n, "kind": k} for n in LARGE for k in ("raw", "gz")]
+
+
+def check_large_frame_cuts(case, ctx):
+    """A frame of many megabytes is a complete frame like any other (the length is a 32-bit count): the intact
+    stream yields it and the records behind it, a cut behind it still yields it."""
+    import datetime as _d
+
+    from flow.record import RecordDescriptor, RecordReader, RecordStreamReader
+
+    n, kind = case["size"], case["kind"]
+    g = _d.datetime(2020, 1, 1, tzinfo=_d.timezone.utc)
+    desc = RecordDescriptor("t/large", [("bytes", "blob"), ("varint", "i")])
+    blob = (b"0123456789abcdef" * (n // 16 + 1))[:n]
+    records = [desc(b"small", 0, _generated=g), desc(blob, 1, _generated=g), desc(b"after", 2, _generated=g),
+               desc(b"last", 3, _generated=g)]
+    obs_full = [observe(r) for r in records]
+    fp = Keep()
+    exc = _write_all(records, [False] * len(records), fp, "gz" if kind == "gz" else "stream")
+    if exc is not None:
+        raise Violation(kind + "/large/write-raised", "undamaged write raised %r" % (exc,))
+    data = fp.getvalue()
+    plain_full = data if kind == "raw" else gzip.decompress(data)
+    frames, _ = _frames(plain_full)
+    ctx.cls("frame-bytes:%d" % n, "kind:" + kind)
+    if kind == "raw":
+        ends = [e for _, e, _ in frames]
+        cuts = sorted({len(data)} | set(ends) | {e - 1 for e in ends} | {e + 1 for e in ends if e < len(data)}
+                      | {ends[2] + 5, ends[2] + n // 2})
+    else:
+        cuts = sorted({len(data), len(data) - 1, len(data) - 9, len(data) // 2, len(data) * 3 // 4})
+    for cut in cuts:
+        trunc = data[:cut]
+        plain = trunc if kind == "raw" else _inflate_prefix(trunc)
+        if kind == "raw":
+            got, rexc = _read_prefix(lambda: RecordStreamReader(io.BytesIO(trunc)))
+        else:
+            got, rexc = _read_prefix(lambda: RecordReader(fileobj=io.BytesIO(trunc)))
+        ctx.count(1)
+        ctx.nontriv((n, kind, cut))
+        _expect_and_compare(obs_full, plain, got, rexc, kind + "/large-frame-cut", kind == "raw")
+
+
 def parts(tier):
     return [
         Part("truncate-raw", check_truncate("raw"), strategy=stream_spec(), examples=(30, 600), exhaustive=False),
         Part("truncate-gz", check_truncate("gz"), strategy=stream_spec(), examples=(20, 400)),
         Part("write-fault", check_write_fault, strategy=stream_spec(), examples=(16, 300)),
+        Part("large-frame-cuts", check_large_frame_cuts, cases=large_cases, exhaustive=True),
+        Part("transient-write-fault", check_transient_fault, strategy=stream_spec(), examples=(16, 300)),
         Part("truncate-bz2-lz4-zstd", check_truncate_codec, strategy=codec_stream_spec(), examples=(6, 150)),
     ]
